@@ -23,7 +23,7 @@ JAR = "/opt/veriftools/tla/tla2tools.jar:/opt/veriftools/tla/CommunityModules-de
 PY = "/venv/bin/python"
 
 
-TRACE_RESULT_KEYS = ("res", "ans", "probes", "num", "read", "members", "sym", "bm", "b", "ok")
+TRACE_RESULT_KEYS = ("res", "ans", "probes", "num", "eq", "lt", "hash_eq", "val", "read", "members", "sym", "dim", "units", "bm", "ok", "b")
 
 
 def selftest_trace(path, mode):
